@@ -3,4 +3,4 @@ From Coq Require Import ZArith List.
 From PV Require Import C17.C17_Model.
 Require Extraction.
 Require Import ExtrOcamlBasic.
-Extraction "c17_model.ml" rm_trace rm_run queryRefillRange Nat.pred.
+Extraction "c17_model.ml" rm_trace rm_run queryRefillRange Nat.pred run_ops.
